@@ -10,6 +10,8 @@ def _classify(op, a, b):
         return ("cell-bridge-differs", b[:400])
     if op.startswith("c02 sheetbridge"):
         return ("sheet-bridge-differs", b[:600])
+    if op.startswith("c02 pkgbridge"):
+        return ("package-bridge-differs", b[:600])
     m = re.match(r"errs=(\d+);(.*?);view=(.*)$", b, re.S)
     if not m:
         return ("independent-reader-differs", b[:300])
@@ -40,7 +42,7 @@ def _classify(op, a, b):
     return ("view-differs", "")
 
 PROP = {
-    "thm": ["Umya.Thm.C02", "Umya.Thm.C02Bytes", "Umya.Thm.C02Sheet", "Umya.Thm.C02Book", "Umya.Thm.C02Gen"],
+    "thm": ["Umya.Thm.C02", "Umya.Thm.C02Bytes", "Umya.Thm.C02Sheet", "Umya.Thm.C02Book", "Umya.Thm.C02Gen", "Umya.Thm.C02SheetBytes", "Umya.Thm.C02Pkg"],
     "harness": "c02",
     "level": "translation_validation",
     "stateful": True,
@@ -78,22 +80,37 @@ PROP = {
                   "indexes inside their tables, CT_Worksheet child order, every r:id resolving (C02_sheet_decodes, C02_sheet_decodes_sst, C02_merges_decode, C02_hyperlinks_decode, "
                   "C02_hyperlink_walk_decodes, C02_sheet_rels_decode, total writer C02_sheet_written; C02_unordered_rels_fails documents the repaired pairing defect on the decoder's own functions). "
                   "Children of <worksheet> the model does not render and relationships after the hyperlink ones are opaque parameters under explicit Boolean hypotheses (Frame.ok, colsOk, dxfOk, ridsOk). "
-                  "WORKBOOK CLAUSE (new, partial): C02_book_decodes_partial - decode on a package holding the rendered workbook.xml (<sheets>, <definedNames>) and workbook.xml.rels trees returns the "
-                  "sheet list in order (name, visibility, the body decoded from the part the r:id resolves to) and the defined names, with no diagnostic about sheet names, sheet ids, unresolved r:ids, "
-                  "sheet bodies or name scopes, for any number of sheets and names with case-insensitively distinct titles; C02_sheet_names_case_fails is the witness of the defect repaired by fix 95713cc. "
-                  "Tie of both to the code on every run (request `c02 sheetbridge`, generated workbooks incl. a dedicated generator): the rendering of the in-memory rows / cells / merged ranges / "
-                  "hyperlinks / sheet list / defined names by the MODEL is compared, tree-equal up to attribute order, with what the independent XML reader parsed from the real sheetN.xml "
-                  "(sheetData with every row and c, mergeCells, hyperlinks, phoneticPr, child-name sequence), sheetN.xml.rels (hyperlink relationships), workbook.xml (sheets, definedNames, child order), "
-                  "workbook.xml.rels (worksheet relationships) and [Content_Types].xml (worksheet overrides); the theorems' hypotheses are evaluated on the real frame and, where they hold (all 560 sheets "
-                  "of a quick run), the conclusion of C02_sheet_decodes is checked on the real package.",
-    "level_note": "The package-level claim as a whole is validated per written file, not proved for all workbooks: there is no Lean model of the whole writer (parts list, "
-                  "content types, package-level relationships, the opaque children of <worksheet>/<workbook>, styles). The sheet and workbook theorems are about element TREES "
-                  "(Package parts carry the parsed tree); the path algebra of OPC (resolveTarget, relsNameOf on String) enters as hypotheses / look-ups, evaluated on every real package. The cell theorems are about the fact-level model of the cell writer "
-                  "(element, attributes, raw text content) and a rendering of those facts as element trees; the tag syntax quick-xml emits is not modelled at character level, "
-                  "so the step bytes -> tree is checked per file by the `c02 bridge` request (tree equality of every parsed <c> with the rendered fact), not proved. "
-                  "Trusted: the Lean reader (spec, ~600 lines), the rendering Umya/Model/CellNode.lean (~150 lines, checked against the real parse on every run), the zip crate, "
-                  "the harness view function and C01's fact scanner. Parts the reader does not interpret (theme, drawings, charts, VML, styles body) are checked "
-                  "for XML well-formedness, content type and relationships only.",
+                  "FROM CHARACTERS: every <c> / <si> / <worksheet> / sheet <Relationships> tree the models render is in the XML reader's normal form (C02_cell_node_normal_form, C02_si_node_normal_form, "
+                  "C02_sheet_normal_form), so the isNF hypotheses of the byte-level corollaries are gone (C02_cell_bytes_decode_default, C02_si_bytes_decode_default), and C02_sheet_bytes_decode composes "
+                  "characters -> tree -> decoded sheet: in a package whose sheet part is what the independent XML reader returns on the CHARACTERS renderDoc (ofNode sc root) of the rendered worksheet (likewise the "
+                  "relationships part), decodeSheet returns the sheet's cells / merges / hyperlinks / rows and NO diagnostic. The sheet's cell writer IS C01's: C02_rows_are_cells / C02_cells_are_rows "
+                  "(writeRows over the row loop = writeCells on the sheet's cells, same final table, same <c> facts). "
+                  "PACKAGE CLAUSE (Umya/Model/PackageNode.lean = model of make_buffer for a workbook of n plain sheets: the part list with names, content types (Default rels/xml + Overrides by part-name prefix), "
+                  "_rels/.rels, xl/_rels/workbook.xml.rels (worksheets, styles, theme, shared strings when written), sheet relationship parts when a sheet has an external hyperlink, the shared-string part when the "
+                  "table is not empty; opaque bodies for docProps / theme / styles): for every number of sheets, C02_content_types_cover (every part has a content type under the decoder's look-up; "
+                  "C02_content_types_sheets says which), C02_package_rels_resolve (every internal relationship target of every .rels part resolves, by the decoder's resolveTarget on the concrete names, to a part "
+                  "of the package), C02_rel_ids_unique, C02_sheet_ids_unique, C02_active_tab_in_range, and from them C02_package_no_diagnostics: (decode pkg).2 = [] for every well-formed workbook "
+                  "(BookP.WF, decidable), and C02_book_decodes: decode pkg = (some book, []) where book has the sheet list in order (name, visibility, and per sheet exactly its cells, merged ranges, hyperlinks, "
+                  "rows), the defined names and the active tab; the writer model is total (C02_package_written). No path hypothesis is left: the OPC path rules of the independent reader "
+                  "(Spec/Sml.lean: segsOf / resolveTargetL / relsNameOfL / relsSourceL on the characters of a name) are evaluated for symbolic sheet numbers (Lemmas/PackagePath.lean). "
+                  "C02_book_decodes_partial (any package holding the rendered workbook parts, path resolution as hypothesis) stays as the more general, weaker statement; C02_sheet_names_case_fails is the witness of the defect repaired by fix 95713cc. "
+                  "Tie to the code on every run: request `c02 sheetbridge` (trees of sheetN.xml / rels / workbook.xml / workbook.xml.rels / worksheet Overrides against the models, hypotheses of C02_sheet_decodes evaluated "
+                  "on the real frame and its conclusion checked on the real package) and request `c02 pkgbridge` (generated workbooks incl. a dedicated generator with 1..6 plain sheets, with / without any string, "
+                  "hidden sheets, removed and re-added sheets, defined names, sheets with no / only internal / external hyperlinks): the SKELETON of the model package - part names, content type per part, the "
+                  "Default and Override elements as sets, the (Id, Type, Target, external) triples of every .rels part as sets - is compared with the real package's; in a plain workbook the two part lists "
+                  "must be equal, otherwise the model skeleton must be contained in the real one (the rest is counted outside-model).",
+    "level_note": "Proved for all inputs of the MODELLED fragment: a workbook of n plain sheets (any n, any cells of the CellX fragment, merged ranges, hyperlinks, row table, defined names, "
+                  "hidden sheets), from the writer models down to `decode pkg = (some book, [])`, with the characters -> tree step proved for the tag-level writer model. Opaque, i.e. carried as arbitrary trees / "
+                  "frames under explicit decidable hypotheses evaluated per file: the bodies of docProps/app.xml, docProps/core.xml, xl/theme/theme1.xml, xl/styles.xml (only the cellXfs / dxfs counts are read), "
+                  "the children of <worksheet> other than sheetData / mergeCells / phoneticPr / hyperlinks (Frame.ok / colsOk / dxfOk / ridsOk / nf), the children of <workbook> other than sheets / definedNames "
+                  "(WbFrame.ok; bookViews with activeTab is one of them). Outside the package model (validated per file by the executed reader only): custom document properties, macros (vbaProject.bin, macro "
+                  "content type), ribbon, pivot caches, raw (lazily loaded, not deserialized) sheets and every part a loaded workbook carries verbatim, and sheets with drawings, charts, images, comments / VML, OLE "
+                  "objects, printer settings or tables (each adds parts, Default extensions, Overrides and sheet relationships after the hyperlink ones). The package theorems are about element TREES in the parts "
+                  "(Part.xml); the step characters -> tree is C02_bytes_parse / C02_sheet_bytes_decode for the tag-level model, and `c02 part ... w` (render=same) per real part. The style table behind the s index, "
+                  "and the decoder's xfs view of the styles part, are not characterised. "
+                  "Trusted: the Lean reader (spec, ~650 lines; its path rules were restated on List Char in this round - same behaviour, re-validated by every check that executes it: C02, C03, C04, C06, C11), "
+                  "the models Umya/Model/CellNode.lean, SheetNode.lean, WorkbookNode.lean, PackageNode.lean (checked against the real parse / the real skeleton on every run), the zip crate, "
+                  "the harness view function and C01's fact scanner.",
     "expect_theorems": ["C02_datatype_matches_source", "C02_channels_match_source", "C02_text_channel", "C02_text_channel_conversion", "C02_attr_channel", "C02_escaped_is_inert", "C02_sheetdata_ascending",
                         "C02_hyperlink_pairing",
                         "C02_table_only_grows", "C02_si_decodes", "C02_sst_decodes", "C02_cell_decodes", "C02_cell_written",
@@ -104,34 +121,44 @@ PROP = {
                         "C02_bytes_parse_tree", "C02_bytes_parse_tree_norm", "C02_cell_bytes_decode", "C02_cell_bytes_decode_default", "C02_si_bytes_decode",
                         "C02_sheet_decodes", "C02_sheet_decodes_sst", "C02_merges_decode", "C02_hyperlinks_decode", "C02_hyperlink_walk_decodes",
                         "C02_sheet_rels_decode", "C02_unordered_rels_fails", "C02_sheet_written", "C02_sheet_of_coherent",
-                        "C02_book_decodes_partial", "C02_sheet_names_case_fails"],
+                        "C02_book_decodes_partial", "C02_sheet_names_case_fails",
+                        "C02_cell_node_normal_form", "C02_si_node_normal_form", "C02_si_bytes_decode_default",
+                        "C02_rows_are_cells", "C02_cells_are_rows", "C02_sheet_normal_form", "C02_sheet_bytes_decode",
+                        "C02_content_types_cover", "C02_content_types_sheets", "C02_package_rels_resolve", "C02_rel_ids_unique", "C02_sheet_ids_unique",
+                        "C02_active_tab_in_range", "C02_package_no_diagnostics", "C02_book_decodes", "C02_package_written"],
     "rule": "case = one workbook (generated from a per-case seed, or a corpus file re-saved) written with the standard or the light writer; every part is one request; "
             "the `decode` request compares violations (must be none) and the decoded view; the final `bridge` request carries the cell / <si> facts scanned from the real parts "
-            "and (generated workbooks) the in-memory cells, and must answer ok. non-trivial = every part / decode / bridge request; distinct = distinct request line",
+            "and (generated workbooks) the in-memory cells, and must answer ok; the `sheetbridge` and `pkgbridge` requests (generated workbooks) carry the in-memory sheets / workbook and must answer ok. non-trivial = every part / decode / bridge request; distinct = distinct request line",
     "trusted_base": TB_COMMON + ["independent reader Umya/Spec/XmlLex.lean + Umya/Spec/Sml.lean (executed, not verified against the standards' text)", "zip crate",
                                   "rendering of written facts as element trees Umya/Model/CellNode.lean (checked against the real parse by `c02 bridge` on every run)",
                                   "the writer model Umya/Model/CellXml.lean is the code's (C01's correspondence stream; re-checked on C02's workbooks by `c02 bridge` (c))",
                                   "harness/src/c01.rs::package_facts (non-unescaping scanner of the real parts)",
                                   "tree-level writer models Umya/Model/SheetNode.lean, Umya/Model/WorkbookNode.lean (checked against the real parse by `c02 sheetbridge` on every run; "
-                                  "below the comparison: cellXfs indexes, opaque frame, presence of state=visible)"],
+                                  "below the comparison: cellXfs indexes, opaque frame, presence of state=visible)",
+                                  "package model Umya/Model/PackageNode.lean (its skeleton is compared with the real package by `c02 pkgbridge` on every run; order of parts in the zip and of Overrides is below the comparison)"],
     "assumptions": ["C02_bytes_parse: element and attribute names are XML Names, attribute names distinct per element, attribute values and texts consist of XML 1.0 Chars "
                     "(decidable WF; evaluated by the driver on every claimed part)"],
-    "partial_clauses": ["whole-package well-formedness and decode equality are validated per file, not proved for all workbooks; proved for all inputs: the cell clause at the level of the "
-                        "writer model's facts (C02_cell_decodes … C02_book_cell_decodes), the escaping channels, sheetData order, rId pairing",
+    "partial_clauses": ["package: proved (decode pkg = (some book, []), all diagnostics empty) for the MODELLED package skeleton = workbooks of n plain sheets; workbooks with custom properties, macros, ribbon, pivot "
+                        "caches, raw sheets, or sheets with drawings / charts / images / comments / VML / OLE objects / printer settings / tables are outside the package model and are validated per file "
+                        "(independent reader executed on every part; pkgbridge checks that the model skeleton is contained in theirs)",
+                        "opaque bodies: docProps/app.xml, docProps/core.xml, theme, styles are arbitrary trees in the package theorems (name, content type, relationship only; of styles the cellXfs / dxfs counts); "
+                        "their XML well-formedness is validated per file, and per part by `c02 part ... w` (render=same)",
                         "cells: shared / array formulas, inline strings (<is>), cm/vm/ph attributes are outside the modelled fragment (counted as outside-fragment by the bridge; validated per file by decode)",
-                        "sheet: proved at tree level for the modelled skeleton (sheetData with rows, mergeCells, phoneticPr, hyperlinks + relationships part); the other children of <worksheet> "
-                        "(sheetPr, dimension, sheetViews, sheetFormatPr, cols, sheetProtection, autoFilter, conditionalFormatting, dataValidations, printOptions ... extLst) are opaque under Frame.ok / colsOk / "
-                        "dxfOk / ridsOk (evaluated per file); sheets with tableParts, shared/array formulas or cells outside the CellX fragment are outside the theorem (validated per file); row attributes "
-                        "thickBot, customHeight, x14ac:dyDescent and the style table behind the s index are not modelled",
-                        "workbook: C02_book_decodes_partial leaves the package-level diagnostics (content types for every part, well-formedness of every part, unique relationship ids, relationship targets exist) "
-                        "and activeTab per file; OPC path resolution (String operations) is a hypothesis checked per file; content types are only tied (worksheet overrides), not proved",
-                        "sheet titles: Worksheet::set_name does not check for duplicates (known finding C02-set-name-duplicate-title); new_sheet compares case-insensitively since the fix",
+                        "sheet: the children of <worksheet> other than sheetData, mergeCells, phoneticPr, hyperlinks (sheetPr, dimension, sheetViews, sheetFormatPr, cols, sheetProtection, autoFilter, "
+                        "conditionalFormatting, dataValidations, printOptions ... extLst) are opaque under Frame.ok / colsOk / dxfOk / ridsOk / nf (evaluated per file); sheets with tableParts, shared/array formulas or "
+                        "cells outside the CellX fragment are outside the theorem (validated per file); row attributes thickBot, customHeight, x14ac:dyDescent and the style table behind the s index are not modelled",
+                        "workbook: bookViews (activeTab) is inside the opaque WbFrame: C02_active_tab_in_range needs the stored index to be inside the sheet list - remove_sheet clamps it (fix 649e69a), "
+                        "set_active_sheet accepts any index and the writer writes what is stored, so this is a hypothesis of BookP.WF, not a theorem about the API",
+                        "character legality: wfNodes (every attribute value and text consists of XML 1.0 Chars, names are Names) is a hypothesis of the byte-level theorems, evaluated per part; the writer does not "
+                        "enforce it (control characters in cell text are written raw: listed defect)",
+                        "sheet titles: Worksheet::set_name does not check for duplicates (known finding C02-set-name-duplicate-title); new_sheet compares case-insensitively since the fix; namesDistinct is a hypothesis of BookP.WF",
                         "tag-level serialisation (characters -> element tree) is PROVED for the model Umya/Model/XmlWrite.lean of writer/driver.rs + quick-xml's Writer (C02_bytes_parse, any tree); "
                         "that the real parts are renderings of that model is checked per written part (`c02 part … w` -> render=same, character for character) and, for the structure of the six helper "
                         "functions, by the translator (C02_writer_matches_source); quick-xml's write_event / push_attribute themselves are modelled from their source, not translated; "
                         "VML parts and parts a loaded workbook carries verbatim are not claimed (counted as render.skipped.*)",
-                        "drawings, charts, tables, pivot tables, VML bodies, theme, docProps: XML well-formedness / content type / relationships only",
-                        "macro payload (vbaProject.bin) only via the corpus .xlsm files"],
+                        "the package theorems hold trees in the parts; composing them with C02_bytes_parse for EVERY part of the package (docProps, theme, styles bodies are opaque) is done for the sheet part and its "
+                        "relationships part (C02_sheet_bytes_decode), not restated for the whole package",
+                        "zip container: order of entries, compression, central directory are outside (zip crate trusted); macro payload (vbaProject.bin) only via the corpus .xlsm files"],
     "technique": "independent XML/OPC/SpreadsheetML reader executed in Lean on every written package (translation validation) + Lean theorems on the escaping channels, sheetData order, rId pairing "
                  "and the cell clause (writer model -> rendered element tree -> independent decoder = model cell, for all cells and table states), the latter tied to the real parts by tree equality on every run",
 }
